@@ -25,6 +25,7 @@ type rawConn struct {
 	br *bufio.Reader
 	// Set-Cookie values of every response seen on this connection (name=value parts)
 	cookies []string
+	connID  string // when set, the Rdg-Connection-Id of every request on this connection
 }
 
 func dialGateway(g *gwInstance) (*rawConn, error) {
@@ -46,7 +47,11 @@ func dialGateway(g *gwInstance) (*rawConn, error) {
 // when it is delimited).
 func (r *rawConn) do(method string, auths []string, upgrade bool) (int, []string, error) {
 	var sb strings.Builder
-	fmt.Fprintf(&sb, "%s /remoteDesktopGateway/ HTTP/1.1\r\nHost: gw\r\nRdg-Connection-Id: {%s}\r\n", method, b64(randomBytes(9)))
+	id := b64(randomBytes(9))
+	if r.connID != "" {
+		id = r.connID
+	}
+	fmt.Fprintf(&sb, "%s /remoteDesktopGateway/ HTTP/1.1\r\nHost: gw\r\nRdg-Connection-Id: {%s}\r\n", method, id)
 	if upgrade {
 		fmt.Fprintf(&sb, "Connection: Upgrade\r\nUpgrade: websocket\r\nSec-WebSocket-Version: 13\r\nSec-WebSocket-Key: %s\r\n", base64.StdEncoding.EncodeToString(randomBytes(16)))
 	} else {
@@ -420,6 +425,39 @@ func streamC05(env *runEnv) {
 			env.count("c05.authuser-interleaved")
 			env.emit("authuser", hx([]byte("2")), hx([]byte("127.0.0.1:3389")), obsB)
 			env.emit("authuser", hx([]byte("1")), hx([]byte("127.0.0.1:3389")), obsA)
+		}
+		// somebody else's half-open legacy tunnel: an inbound request that names its connection id is
+		// authenticated like any other request (its Authorization header is not a password for the id)
+		if m.ntlm && !m.local && !m.kerberos {
+			id := fmt.Sprintf("c05-join-%d-%d", env.seed, si)
+			verdict := "exact"
+			if owner, err := dialGateway(g); err == nil {
+				owner.connID = id
+				st, _, _ := runNtlmSeq(g, owner, c05req{method: "RDG_OUT_DATA", ntlmSeq: "full:1:pw1"})
+				if st != 200 {
+					verdict = fmt.Sprintf("owner-out-status-%d", st)
+				} else {
+					cl := ntlm.V2ClientSession{}
+					cl.SetUserInfo("2", "whatever", "")
+					nm, _ := cl.GenerateNegotiateMessage()
+					for _, a := range []string{"Basic " + base64.StdEncoding.EncodeToString([]byte("1:wrong")), "NTLM " + base64.StdEncoding.EncodeToString(nm.Bytes()),
+						"Negotiate " + base64.StdEncoding.EncodeToString(nm.Bytes()), "NTLM AAAA", "Bearer x"} {
+						if other, err := dialGateway(g); err == nil {
+							other.connID = id
+							st2, _, _ := other.do("RDG_IN_DATA", []string{a}, false)
+							other.c.Close()
+							if st2 == 200 && verdict == "exact" {
+								verdict = "inbound-request-joined-another-users-tunnel-with-" + strings.SplitN(a, " ", 2)[0]
+							}
+						}
+					}
+				}
+				owner.c.Close()
+			} else {
+				verdict = "no-connection"
+			}
+			env.count("c05.join." + strings.SplitN(verdict, "-", 2)[0])
+			env.emit("exact", fmt.Sprintf("cfg%d-inbound-request-for-a-pending-tunnel-needs-its-own-confirmed-credentials", si), verdict)
 		}
 		// liveness after all hostile inputs
 		if c, err := dialGateway(g); err == nil {
